@@ -147,7 +147,10 @@ func runC35(c *eng.Ctx) {
 			a := eng.CallArgsText(l)
 			return len(a) == 3 && a[0] == "p.mtype" && a[1] == "label" && a[2] == "unreplace(s[c:d])"
 		})
-		f.Dom("R2", eng.Node("p.builder.Sort()", func(g *eng.Graph, n ast.Node) bool { call, ok := n.(*ast.CallExpr); return ok && nodeText(call) == "p.builder.Sort()" }), eng.Node("*l = p.builder.Labels()", func(g *eng.Graph, n ast.Node) bool { return nodeText(n) == "*l = p.builder.Labels()" }))
+		f.Dom("R2", eng.Node("p.builder.Sort()", func(g *eng.Graph, n ast.Node) bool {
+			call, ok := n.(*ast.CallExpr)
+			return ok && nodeText(call) == "p.builder.Sort()"
+		}), eng.Node("*l = p.builder.Labels()", func(g *eng.Graph, n ast.Node) bool { return nodeText(n) == "*l = p.builder.Labels()" }))
 	}
 	nf := c.Fn(T + "normalizeFloatsInLabelValues")
 	nf.Only("R2", eng.Return("return of a re-formatted value", func(g *eng.Graph, rs *ast.ReturnStmt) bool { return nodeText(rs) != "return v" }), "re-formats le of histograms and quantile of summaries with FormatOpenMetricsFloat, only when the value parses", func(l eng.Loc) bool {
@@ -235,7 +238,9 @@ func runC35(c *eng.Ctx) {
 	// ---- R5 exemplar out-parameter discipline ----
 	for _, fn := range []string{"OpenMetricsParser.Exemplar", "ProtobufParser.Exemplar"} {
 		f := c.Fn(T + fn)
-		retTrue := eng.Return("return true", func(g *eng.Graph, rs *ast.ReturnStmt) bool { return len(rs.Results) == 1 && nodeText(rs.Results[0]) == "true" })
+		retTrue := eng.Return("return true", func(g *eng.Graph, rs *ast.ReturnStmt) bool {
+			return len(rs.Results) == 1 && nodeText(rs.Results[0]) == "true"
+		})
 		f.Has("R5", retTrue, 1)
 		f.Dom("R5", p.Store("model/exemplar:Exemplar.Value"), retTrue)
 		f.Dom("R5", p.Store("model/exemplar:Exemplar.Labels"), retTrue)
